@@ -1,0 +1,62 @@
+//go:build verif
+
+// Contracts for package files, checked by /verif/gvc (contract-based
+// deductive verification).  This file is comment-only: with the build tag off
+// it does not exist for the compiler, with it on it adds nothing but a
+// package clause.
+package files
+
+//@ import "strings"
+//@ import "io/fs"
+//@ import "time"
+//@ import "path/filepath"
+//
+//@ spec func rpmOnly(t string) bool {
+//@     return t == "ghost" || t == "doc" || t == "licence" || t == "license" || t == "readme"
+//@ }
+//
+//@ spec func relevantSpec(packager, cPackager, cType string) bool {
+//@     return packager == "" ||
+//@         ((cPackager == "" || cPackager == packager) &&
+//@             (!rpmOnly(cType) || packager == "rpm") &&
+//@             (cType != "debian changelog" || packager == "deb"))
+//@ }
+//
+//@ spec func isDirType(t string) bool { return t == "dir" || t == "implicit dir" }
+//
+//@ func isRelevantForPackager(packager string, content *Content) (result bool)
+//@   requires content != nil
+//@   ensures [C05 C08 C13 C01] spec: result == relevantSpec(packager, old(content.Packager), old(content.Type))
+//@   modifies [C11 C12]
+//
+//@ func (c Contents) Less(i, j int) (result bool)
+//@   requires 0 <= i && i < len(c) && 0 <= j && j < len(c)
+//@   requires c[i] != nil && c[j] != nil
+//@   ensures [C05 C07] by-destination-first: implies(old(c[i].Destination) != old(c[j].Destination), result == (old(c[i].Destination) < old(c[j].Destination)))
+//@   ensures [C05 C07] irreflexive: implies(i == j, !result)
+//@   ensures [C05 C07] total-on-distinct-destinations: implies(old(c[i].Destination) != old(c[j].Destination), result != (old(c[j].Destination) < old(c[i].Destination)))
+//@   modifies [C11 C12]
+//
+//@ pure func ToNixPath(path string) (result string)
+//@   ensures [C04 C05] is-clean: result == filepath.Clean(path)
+//
+//@ pure func AsRelativePath(path string) (result string)
+//@   ensures [C04] relative: !strings.HasPrefix(result, "/")
+//@   ensures [C04] dir-keeps-slash: implies(strings.HasPrefix(path, "/") && strings.HasSuffix(path, "/") && len(strings.TrimLeft(ToNixPath(path), "/")) > 1, strings.HasSuffix(result, "/"))
+//@   ensures [C04] file-no-slash: implies(!strings.HasSuffix(path, "/") && ToNixPath(path) != "/", !strings.HasSuffix(result, "/"))
+//@   ensures [C04] no-dotdot: implies(strings.HasPrefix(path, "/"), !strings.Contains(result, "/../") && !strings.HasPrefix(result, "../"))
+//
+//@ pure func AsExplicitRelativePath(path string) (result string)
+//@   ensures [C04] dot-slash: strings.HasPrefix(result, "./") && result == "./" + AsRelativePath(path)
+//@   ensures [C04] no-double-slash: !strings.HasPrefix(result, ".//")
+//
+//@ pure func NormalizeAbsoluteFilePath(src string) (result string)
+//@   ensures [C04 C05] absolute: strings.HasPrefix(result, "/")
+//@   ensures [C04 C05] clean: !strings.Contains(result, "//") && !strings.Contains(result, "/../") && !strings.HasSuffix(result, "/..") && !strings.Contains(result, "/./")
+//@   ensures [C04 C05] no-trailing-slash: result == "/" || !strings.HasSuffix(result, "/")
+//@   ensures [C05] idempotent: NormalizeAbsoluteFilePath(result) == result
+//
+//@ pure func NormalizeAbsoluteDirPath(path string) (result string)
+//@   ensures [C04 C05] absolute: strings.HasPrefix(result, "/")
+//@   ensures [C04 C05] one-trailing-slash: strings.HasSuffix(result, "/") && !strings.HasSuffix(result, "//")
+//@   ensures [C04 C05] clean: !strings.Contains(result, "//") && !strings.Contains(result, "/../") && !strings.Contains(result, "/./")
